@@ -328,6 +328,9 @@ def main():
             chk.add(roundtrip, real_t=rt, dim=dim, grid=grid, n_markers=[dim + 1, 2 * dim], named=False, lag_fields=True)
             chk.add(roundtrip, real_t=rt, dim=dim, grid=grid, n_markers=[4], named=True, lag_fields=False)
             chk.add(rejection, real_t=rt, dim=dim, grid=grid, n_markers=[4])
+            # IO objects used earlier in the same process (other marker count / naming / without Lagrangian fields)
+            chk.add(roundtrip, real_t=rt, dim=dim, grid=grid, n_markers=[dim], named=True, lag_fields=True,
+                    _earlier=[{"n_markers": [dim + 1, 2 * dim], "named": False}, {"lag_fields": False, "n_markers": [4]}, {"_real_t": "float32" if rt == "float64" else "float64"}])
             chk.add(roundtrip_mixed_precision, real_t=rt, dim=dim, n=3)
             chk.add(derived_io_classes, real_t=rt, kind="eulerian", dim=dim)
             chk.add(derived_io_classes, real_t=rt, kind="rod", dim=dim)
